@@ -260,7 +260,10 @@ class World:
 
             ds = p.obj[op["ds"]]
             base = len(ds.effects)
-            ds.add_effects(*[_effect(p.node[op["ds"]]["name"], base + i) for i in range(op["n"])])
+            nd = p.node[op["ds"]]
+            while nd["k"] == "derive":  # a derived dataset: effects are named after the family's origin
+                nd = p.node[nd["base"]]
+            ds.add_effects(*[_effect(nd["name"], base + i) for i in range(op["n"])])
         elif kind == "set_cache":
             from .build import RecordingCache
 
